@@ -224,6 +224,12 @@ impl Memory {
     ///
     /// This takes care of the underlying memory sections automatically.
     pub fn set_memory(&mut self, address: u64, data: Vec<u8>, permissions: MemoryPermissions) {
+        // An empty region covers no address: it must not remove, truncate or
+        // shadow the sections that are already there.
+        if data.is_empty() {
+            return;
+        }
+
         // All overlapping memory sections need to be adjusted
         // Start by collecting addresses and lengths
         let als = self
